@@ -394,13 +394,17 @@ T("performance.optimize_contains_types",
   # a string is not the list of its characters
   "print('ab' in list('abc'), 'ab' in sorted('abc'), 'ab' in tuple('abc'), '' in list('abc'))\n",
   "d = {1: 'a'}\nprint(1 in list(d), 'a' in set(d), 1 in {k: 0 for k in d}, 2 in iter([1, 2]))\n",
-  "n = float('nan')\nprint(n in [n], n in [float('nan')], 1 in [1.0, True])\n")
+  "n = float('nan')\nprint(n in [n], n in [float('nan')], 1 in [1.0, True])\n",
+  # 2835a2e: list(g) consumes the iterator to its end, `in g` only up to the first hit
+  "g = iter([1, 2, 3])\nprint(2 in list(g), list(g))\n")
 T("performance.remove_redundant_iter",
   "for x in list(range(3)):\n    print(x)\nprint([y for y in tuple('ab')], [z for z in iter((1, 2))])\n",
   # the copy protects the iteration from mutation in the body
   "d = {1: 'a', 2: 'b'}\nfor k in list(d):\n    del d[k]\nprint(d)\n",
   "l = [1, 2, 3]\nfor v in list(l):\n    if v < 3:\n        l.append(v + 10)\nprint(l)\n",
-  "s = {1, 2}\nfor v in tuple(s):\n    s.add(v + 10)\nprint(sorted(s))\n")
+  "s = {1, 2}\nfor v in tuple(s):\n    s.add(v + 10)\nprint(sorted(s))\n",
+  # 32fac44: list() around a generator runs the producer to its end before the loop body starts
+  "def gen():\n    for i in range(3):\n        print('produce', i)\n        yield i\nfor x in list(gen()):\n    print('use', x)\nprint([y for y in tuple(gen())])\n")
 T("performance.remove_redundant_chained_calls",
   "v = [3, 1, 2]\nprint(sorted(list(v)), list(tuple(v)), set(sorted(v)) == {1, 2, 3}, sum(list(v)), tuple(list(v)), list(list(v)), sorted(sorted(v)))\n",
   # keyword arguments of the outer call
@@ -411,7 +415,10 @@ T("performance.remove_redundant_chained_calls",
   "g = (i for i in range(3))\nprint(list(reversed(list(g))), list(reversed(tuple({5: 1, 6: 2}))))\n",
   # reversed(sorted(...)) reverses ties, sorted(reverse=True) keeps them
   "v = ['bb', 'a', 'cc']\nprint(list(reversed(sorted(v, key=len))), list(reversed(sorted([3, 1, 2]))), list(reversed(sorted(v, reverse=True))))\n",
-  "print(sum(sorted([3, 1, 2])), sum(reversed([1, 2])), set(reversed([1, 2])) == {1, 2}, sorted(reversed([2, 3, 1])))\n")
+  "print(sum(sorted([3, 1, 2])), sum(reversed([1, 2])), set(reversed([1, 2])) == {1, 2}, sorted(reversed([2, 3, 1])))\n",
+  # 7f623fd: the iterator over a copy outlives the expression; an iterator argument is consumed at once
+  "x = [1, 2, 3]\nit = iter(list(x))\nx.append(4)\nprint(list(it))\n",
+  "g = (i for i in range(3))\nit = iter(tuple(g))\nprint(list(g), list(it))\n")
 T("performance.replace_sorted_heapq",
   "v = [3, 1, 2]\nprint(sorted(v, key=abs)[0], sorted(v, key=abs)[-1], sorted(v, key=abs)[:2], sorted(v, key=abs)[-2:])\n",
   # ties: sorted(...)[-1] is the LAST maximal element, max() returns the first
@@ -432,12 +439,14 @@ T("performance_numpy.replace_implicit_dot",
   _NP + "a = []\nprint(sum(x * y for x, y in zip(a, a)), np.dot(a, a))\n",
   # zip stops at the shorter operand, dot requires equal lengths
   _NP + "a = [1, 2, 3]\nb = [4, 5]\nprint(sum(x * y for x, y in zip(a, b)), np.dot(b, b))\n")
+# (since c0aaff0 the rule only fires in programs that mention np.<something>: `check = np.matmul(..)` keeps the triggers
+#  in its domain)
 T("performance_numpy.replace_implicit_matmul",
-  _NP + "left = [[1, 2], [3, 4]]\nright = [[5, 6], [7, 8]]\nresult = [[0, 0], [0, 0]]\nfor i in range(len(left)):\n    for j in range(len(right[0])):\n        for k in range(len(right)):\n            result[i][j] += left[i][k] * right[k][j]\nprint(result)\n",
+  _NP + "left = [[1, 2], [3, 4]]\nright = [[5, 6], [7, 8]]\ncheck = np.matmul(left, right)\nresult = [[0, 0], [0, 0]]\nfor i in range(len(left)):\n    for j in range(len(right[0])):\n        for k in range(len(right)):\n            result[i][j] += left[i][k] * right[k][j]\nprint(result)\n",
   # += accumulates onto the previous content of result
-  _NP + "left = [[1, 2], [3, 4]]\nright = [[5, 6], [7, 8]]\nresult = [[100, 0], [0, 100]]\nfor i in range(len(left)):\n    for j in range(len(right[0])):\n        for k in range(len(right)):\n            result[i][j] += left[i][k] * right[k][j]\nprint(result)\n",
+  _NP + "left = [[1, 2], [3, 4]]\nright = [[5, 6], [7, 8]]\ncheck = np.matmul(left, right)\nresult = [[100, 0], [0, 100]]\nfor i in range(len(left)):\n    for j in range(len(right[0])):\n        for k in range(len(right)):\n            result[i][j] += left[i][k] * right[k][j]\nprint(result)\n",
   # the loop updates the object in place: another name for it sees the update
-  _NP + "left = [[1, 2], [3, 4]]\nright = [[5, 6], [7, 8]]\nresult = [[0, 0], [0, 0]]\nalias = result\nfor i in range(len(left)):\n    for j in range(len(right[0])):\n        for k in range(len(right)):\n            result[i][j] += left[i][k] * right[k][j]\nprint(alias)\n",
+  _NP + "left = [[1, 2], [3, 4]]\nright = [[5, 6], [7, 8]]\ncheck = np.matmul(left, right)\nresult = [[0, 0], [0, 0]]\nalias = result\nfor i in range(len(left)):\n    for j in range(len(right[0])):\n        for k in range(len(right)):\n            result[i][j] += left[i][k] * right[k][j]\nprint(alias)\n",
   _NP + "left = [[1, 2], [3, 4]]\nright = [[5, 6], [7, 8]]\nresult = [[sum(left[i][k] * right[k][j] for k in range(len(right))) for j in range(len(right[0]))] for i in range(len(left))]\nprint(result)\n")
 _M = ("class M:\n    def __init__(self, rows):\n        self.rows = [list(r) for r in rows]\n    @property\n    def T(self):\n        return M(zip(*self.rows))\n"
       "    def __repr__(self):\n        return 'M(%r)' % (self.rows,)\n"
